@@ -220,6 +220,16 @@ class Snap:
         self.j = j
 
 
+class _Mailbox:
+    """an object whose bound method is given away as a callable"""
+
+    def __init__(self, f):
+        self.f = f
+
+    def deliver(self, event):
+        return self.f(event)
+
+
 class ImplWorld:
     """Mirror of `Sismic.World`: slots = real interpreters."""
 
@@ -238,6 +248,8 @@ class ImplWorld:
         self.tick_clock = False         # interpreters get a TickClock, which the ops do not set
         self.running_clock = False      # interpreters get a playing SimulatedClock over a scripted real time
         self.prop_instance = False      # property statecharts are bound as ready-made interpreters (deprecated form)
+        self.peek_config = False        # the harness's listener reads `interpreter.configuration` at every meta-event
+        self.method_targets = False     # recording callables are bound as methods of otherwise unreferenced objects
         self.real = 0
         self.deliveries = None          # when a list: global order in which the recording callables were called
         self.log = Log()
@@ -294,6 +306,19 @@ class ImplWorld:
                     if seen != self.cur_clock and not any(a[0] == 'time' for a in self.anomalies):
                         self.anomalies.append(['time', 'while %r was announced interpreter.time was %r; the step was called at clock '
                                                'time %r' % (event.name, seen, self.cur_clock)])
+                if self.peek_config:
+                    # a listener may look at the interpreter: a state is announced as entered once it is in the
+                    # configuration, as exited once it is not
+                    try:
+                        cfg = list(self.slots[slot].configuration)
+                    except Exception:       # noqa
+                        cfg = None
+                    if cfg is not None and not any(a[0] == 'config' for a in self.anomalies):
+                        st = event.data.get('state')
+                        if event.name == 'state entered' and st not in cfg:
+                            self.anomalies.append(['config', "while 'state entered' of %r was announced the configuration was %r" % (st, cfg)])
+                        elif event.name == 'state exited' and st in cfg:
+                            self.anomalies.append(['config', "while 'state exited' of %r was announced the configuration was %r" % (st, cfg)])
                 # every parameter of a meta-event is readable as an attribute, `None` values included
                 for k, v in event.data.items():
                     try:
@@ -538,7 +563,11 @@ class ImplWorld:
         return self._add_listener(i, ('bind', j), l)
 
     def op_bindcb(self, i, k):
-        l = self.slots[i].bind(self._cbfun(k))
+        target = self._cbfun(k)
+        if self.method_targets:
+            # the target is a bound method of an object nobody else holds on to: the binding keeps it alive
+            target = _Mailbox(target).deliver
+        l = self.slots[i].bind(target)
         return self._add_listener(i, ('bindcb', k), l)
 
     def op_bindmut(self, i, k):
@@ -675,6 +704,13 @@ def run_case(case, charts, clock_mover=False):
     w.tick_clock = bool(case.get('tick_clock'))
     w.outer_first = bool(case.get('outer_first'))
     w.prop_instance = bool(case.get('prop_instance'))
+    w.method_targets = bool(case.get('method_targets'))
+    if 'peek_config' in case:
+        w.peek_config = bool(case['peek_config'])
+    else:
+        # in three histories out of ten (decided by a checksum of the history itself, so that a replay does the same)
+        import zlib
+        w.peek_config = zlib.crc32(json.dumps(case['ops'], sort_keys=True).encode()) % 10 < 3
     obs = []
     if case.get('running_clock'):
         import sismic.clock.clock as cc
